@@ -52,6 +52,13 @@ def isa_cell(cell):
                 out.append({'msg': f'{name} at {hft} ft: {k} = {got[k]!r}, ISA gives {ref[k]!r} (rel {e:.2e} > 1e-4)', 'key': None})
         if abs((at.altitude >> U.Foot) - hft) > 1e-9 * max(1, abs(hft)):
             out.append({'msg': f'{name}: altitude {at.altitude >> U.Foot} != {hft}', 'key': None})
+    # the factory takes a humidity: the result is the standard station at that altitude with that humidity (and lighter than the dry one)
+    dry = pb.Atmo.icao(U.Foot(hft))
+    for h in (50, 0.8):
+        wet = pb.Atmo.icao(U.Foot(hft), humidity=h)
+        same = pb.Atmo(U.Foot(hft), dry.pressure, dry.temperature, h)
+        if not wet.density_ratio < dry.density_ratio or abs(wet.density_ratio - same.density_ratio) > 1e-12 * same.density_ratio:
+            out.append({'msg': f'Atmo.icao({hft} ft, humidity={h}) has density ratio {wet.density_ratio!r}; dry {dry.density_ratio!r}, Atmo with the standard values and that humidity {same.density_ratio!r}', 'key': None})
     # a bare number is that number in the preferred distance unit (yards) - and never the same thing as a quantity with the same raw number
     for label, arg, alt_ft in (('bare number (yards)', float(hft) / 3.0, float(hft)), ('Inch quantity with the same raw number', U.Inch(float(hft) / 3.0), hft / 36.0)):
         if not -1400 <= alt_ft <= 36000:
@@ -191,7 +198,7 @@ def vacuum(cell):
     return {'v': out[:2], 'n': 2, 'nt': cell if a0 != q else None}
 
 
-HOPS = ['q_near', 'q100', 'q5000', 'h0', 'h50', 'h100pct', 'h_bad']
+HOPS = ['q_near', 'q100', 'q5000', 'h0', 'h50', 'h100pct', 'h_bad', 'mk_other']
 
 
 def history(cell):
@@ -211,6 +218,10 @@ def history(cell):
             st.get_density_factor_and_mach_for_altitude(a0 + 100.0)
         elif op == 'q5000':
             st.get_density_factor_and_mach_for_altitude(a0 + 5000.0)
+        elif op == 'mk_other':
+            # other atmosphere objects come and go (a vacuum, a hot station): none of this object's business
+            pb.Vacuum(U.Foot(200), U.Celsius(-3)).get_density_factor_and_mach_for_altitude(4000.0)
+            pb.Atmo(U.Foot(3000), U.InHg(27), U.Fahrenheit(99), 80).get_density_factor_and_mach_for_altitude(9000.0)
         elif op == 'h_bad':
             try:
                 st.humidity = 101
@@ -239,6 +250,12 @@ def history(cell):
                 break
         for q in (a0, a0 + 10.0, a0 + 31.0, a0 + 100.0, a0 + 5000.0, a0 - 500.0):
             got, exp = st.get_density_factor_and_mach_for_altitude(q), fresh.get_density_factor_and_mach_for_altitude(q)
+            if kind == 'std' and hum == 0 and abs(q - a0) > 30:
+                # absolute as well (the freshly built object lives in the same process as whatever the history did)
+                T_, P_, dr_, a_ = isa(q)
+                if abs(got[0] - dr_) / dr_ > 3e-4 or abs(got[1] * FT - a_) / a_ > 3e-4:
+                    out.append({'msg': f'standard station at {a0} ft after {ops[:k + 1]}: prediction at {q} ft is ({got[0]!r}, {got[1] * FT!r} m/s), ISA gives ({dr_!r}, {a_!r})', 'key': None})
+                    break
             if got != exp:
                 out.append({'msg': f'{kind} station at {a0} ft after {ops[:k + 1]}: prediction at {q} ft is {got}, a freshly built atmosphere with the same values and humidity {hum} predicts {exp}', 'key': None})
                 break
